@@ -15,7 +15,7 @@ through that table by the model's own `findLineIdx` (`Layout.sl`, `Layout.el`), 
                       glued tokens.
 `LinN Y d nd ts`    — `ts` renders the node `nd` (a statement, the statements of a block — `；` included —, the 再如/否则 tail of a 如果,
                       the 拦截 handlers of a body, a function body, the members of a 定义) whose lines are indented by `d`.
-`LinPairs`, `LinImport(s)` — the pairs of the block form `令：`, the 导入 statements.
+`LinPairs`, `LinImport(s)` — the pairs of the block form `令：`, the 导入 statements (with the `；` that may follow each).
 `LinStmt`, `LinBlock`, `LinExec`, `LinProgram` are the instances asked for.
 
 The layout discipline, in one place:
@@ -465,29 +465,43 @@ def LinExec (Y : Layout) (x : ExecBlock) (d : Nat) (ts : List Token) : Prop := L
 /-- the library type of an import: `《…》` is a standard library, a string a file -/
 def libTypeOf (nm : Token) : Nat := if nm.type = cTypeLibString then cLibTypeStd else cLibTypeCustom
 
-/-- `导入 《库》` / `导入 "文件"`, optionally `之 a、b` (the node holds line 0) -/
+/-- `导入 《库》` / `导入 "文件"`, optionally `之 a、b`; the node holds the line of the 导入 token (`ParseProgram`:
+`setStmtCurrentLine(stmt, tk)` — before that repair the line stayed 0) -/
 inductive LinImport (Y : Layout) : Import → List Token → Prop
   | plain (kw nm : Token) : kw.type = cTypeImportW → nm.type ∈ [cTypeLibString, cTypeString] → Y.Glued [kw, nm] →
-      LinImport Y { line := 0, libType := libTypeOf nm, name := some (runesToString nm.literal), items := [] } [kw, nm]
+      LinImport Y { line := Y.sl kw, libType := libTypeOf nm, name := some (runesToString nm.literal), items := [] } [kw, nm]
   | items (kw nm dot : Token) (ids : List Ident) (ti : List Token) :
       kw.type = cTypeImportW → nm.type ∈ [cTypeLibString, cTypeString] → dot.type ∈ [cTypeObjDotW, cTypeObjDotIIW] →
       LinIds Y ids ti → Y.Glued (kw :: nm :: dot :: ti) →
-      LinImport Y { line := 0, libType := libTypeOf nm, name := some (runesToString nm.literal), items := ids }
+      LinImport Y { line := Y.sl kw, libType := libTypeOf nm, name := some (runesToString nm.literal), items := ids }
         (kw :: nm :: dot :: ti)
 
-/-- the 导入 statements that open a program, each starting on a line indented by `d` (they need not be on separate lines) -/
+/-- a run of `；` tokens, each NOT separated by a statement line break from the token before it (`a` = the token before the first):
+what `ParseProgram`'s loop `for { tryConsume(；) }` swallows after a 导入 statement -/
+inductive SepRun (Y : Layout) : Option Token → List Token → Prop
+  | nil (a : Option Token) : SepRun Y a []
+  | cons (a : Option Token) (t : Token) (r : List Token) :
+      t.type = cTypeStmtSep → Y.jf a t = false → SepRun Y (some t) r → SepRun Y a (t :: r)
+
+/-- the 导入 statements that open a program, each starting on a line indented by `d` (they need not be on separate lines), each
+followed by any number of `；` on the line of its last token (‹导入语句› [‹间隔符› ‹导入语句›]*: `导入《甲》；导入《乙》；`) -/
 inductive LinImports (Y : Layout) (d : Nat) : List Import → List Token → Prop
   | nil : LinImports Y d [] []
-  | cons (im : Import) (t1 : List Token) (ims : List Import) (t2 : List Token) :
-      LinImport Y im t1 → Y.ind (Y.peek t1) = d → LinImports Y d ims t2 → LinImports Y d (im :: ims) (t1 ++ t2)
+  | cons (im : Import) (t1 seps : List Token) (ims : List Import) (t2 : List Token) :
+      LinImport Y im t1 → Y.ind (Y.peek t1) = d → SepRun Y t1.getLast? seps → LinImports Y d ims t2 →
+      LinImports Y d (im :: ims) (t1 ++ (seps ++ t2))
 
-/-- `ts` renders the program `p`: nothing; or 导入 statements, then (possibly) a body — all indented like the first line -/
+/-- `ts` renders the program `p`: nothing; or 导入 statements, then (possibly) a body — all indented like the first line.  A body
+that follows 导入 statements starts with a `；` (an empty statement) only after a statement line break: a `；` on the line of the
+last 导入 statement belongs to the import section (it is swallowed, no empty statement). -/
 inductive LinProgram (Y : Layout) : Program → List Token → Prop
   | empty : LinProgram Y { imports := [], exec := none } []
   | body (d : Nat) (x : ExecBlock) (ts : List Token) : LinN Y d (.exec x) ts → LinProgram Y { imports := [], exec := some x } ts
   | importsOnly (d : Nat) (ims : List Import) (ti : List Token) : ti ≠ [] → LinImports Y d ims ti →
       LinProgram Y { imports := ims, exec := none } ti
   | importsBody (d : Nat) (ims : List Import) (ti : List Token) (x : ExecBlock) (tx : List Token) : ti ≠ [] →
-      LinImports Y d ims ti → LinN Y d (.exec x) tx → LinProgram Y { imports := ims, exec := some x } (ti ++ tx)
+      LinImports Y d ims ti → LinN Y d (.exec x) tx →
+      ((Y.peek tx).type = cTypeStmtSep → Y.jf ti.getLast? (Y.peek tx) = true) →
+      LinProgram Y { imports := ims, exec := some x } (ti ++ tx)
 
 end ZnVerif.Spec.StmtSyntax
